@@ -44,6 +44,8 @@ Explains(r) ==
 
 NonTrivial(r) == r.kind \in {"slice", "method"} /\ IsOk(r.out) /\ Len(r.out.ok.a) >= 2
 
+Unjudged(r) == FALSE
+
 J == INSTANCE JudgeLoop
 Spec == J!Spec
 =============================================================================
